@@ -79,7 +79,7 @@ def canonAux : List Ev → List Nat → List Nat → List Ev
 def canon (evs : List Ev) : List Ev := canonAux evs [] []
 
 def showPick : PickRes → String
-  | .sc 0 => "empty" | .sc id => s!"sc{id}" | .queue => "queue" | .err => "err" | .nopicker => "nopicker"
+  | .sc id => s!"sc{id}" | .queue => "queue" | .err => "err" | .empty => "empty" | .nopicker => "nopicker"
 
 def showOut (o : Out) : String :=
   let e := canon o.evs
